@@ -287,10 +287,48 @@ def check_legacy(i):
             got = f"{type(r[1]).__name__}:{r[1]!r}"[:60] if r[0] == "ok" else f"{r[0]}:{r[1]}"
             probs.append((f"C19|legacy|{ref}|{type(want).__name__}|got={got.split(':')[0] if r[0] == 'ok' else got}",
                           f"blob written by the {ref} codec ({raw[:16]!r}...) decodes to {got}, expected {want!r}"))
+        if kind == "dbfs" and ref in LEGACY_TO_CURRENT:
+            # committing a path to a legacy blob (a new path for an old result, a revert, a new data directory) behaves
+            # exactly like committing it to the same bytes written by the current codec
+            for ct in ("full", "links_only", "none"):
+                old_, new_ = _sync_outcome(ref, raw, key_, ct), _sync_outcome(LEGACY_TO_CURRENT[ref], raw, key_, ct)
+                if old_ != new_:
+                    probs.append((f"C19|legacy_sync|{ref}|{ct}|{old_[0] if old_[0] != 'ok' else 'data_differs'}",
+                                  f"[commit_type={ct}] committing two paths to a blob written by the {ref} codec gives {str(old_)[:200]}; "
+                                  f"the same bytes under {LEGACY_TO_CURRENT[ref]} give {str(new_)[:200]}"))
     finally:
         api._store_var = None
         shutil.rmtree(root, ignore_errors=True)
     return probs
+
+
+LEGACY_TO_CURRENT = {"dbfs.string": "local.string", "dbfs.bytes": "local.bytes", "dbfs.pickle": "local.pickle"}
+
+
+def _sync_outcome(ref, raw, key_, ct):
+    """(status, fetch_paths answer, files under the data directory) after committing /leg/p and /leg/q/r to the blob, then
+    re-pointing /leg/p to another (current) blob and back"""
+    import dds
+    import dds._api as api
+    db = FakeDbutils()
+    other = "cd" * 32
+    for k, (r, b) in {key_: (ref, raw), other: ("local.string", b"other")}.items():
+        db.fs.files["dbfs:/int/blobs/" + k] = b
+        db.fs.files["dbfs:/int/blobs/" + k + ".meta"] = json.dumps({"protocol": r, "timestamp_millis": 1}).encode()
+    try:
+        dds.set_store("dbfs", internal_dir="dbfs:/int", data_dir="dbfs:/data", dbutils=db, commit_type=ct)
+        st = api._store()
+        from collections import OrderedDict
+        steps = [OrderedDict([("/leg/p", key_), ("/leg/q/r", key_)]), OrderedDict([("/leg/p", other)]), OrderedDict([("/leg/p", key_)])]
+        for m in steps:
+            r = call(lambda: st.sync_paths(m))
+            if r[0] != "ok":
+                return (f"{r[0]}:{r[1]}", None, None)
+        got = call(lambda: dict(st.fetch_paths(["/leg/p", "/leg/q/r"])))
+        files = {k: v for k, v in db.fs.files.items() if k.startswith("dbfs:/data")}
+        return ("ok", got, sorted((k, v if not k.endswith(".meta") else b"<meta>") for k, v in files.items()))
+    finally:
+        api._store_var = None
 
 
 # ------------------------------------------------------------------ one failing dbutils call, then a retry
